@@ -242,6 +242,204 @@ theorem html_text_lt_stays_escaped (o : Opts) (ext : Ext) (sub : Sub) (st : St) 
   · rw [this]; exact textNormal_no_lt _ _ data rest hd
   · exact textSafe_of_no_lt _ (by rw [this]; exact textNormal_no_lt _ _ data rest hd)
 
+/-! ## `textSafe` is preserved (after 6635adc: a text containing `<&` keeps its references) -/
+
+theorem textSafe_tail (c : Char) (l : List Char) (h : textSafe (c :: l) = true) : textSafe l = true := by
+  simp only [textSafe, Bool.and_eq_true] at h; exact h.2
+
+theorem textSafe_cons_ne' {c : Char} (h : c ≠ '<') (w : List Char) : textSafe (c :: w) = textSafe w := by
+  simp [textSafe, h]
+
+/-- head condition: the byte that follows a `<` -/
+def headOK : List Char → Bool
+  | d :: _ => !opensMarkup d
+  | [] => false
+
+theorem textSafe_lt (Y : List Char) : textSafe ('<' :: Y) = (headOK Y && textSafe Y) := by
+  cases Y <;> simp [textSafe, headOK]
+
+theorem textSafe_append_noLt (r Y : List Char) (h : NoLt r) (hr : r ≠ [] → True) : textSafe (r ++ Y) = textSafe Y := by
+  induction r with
+  | nil => rfl
+  | cons c r ih =>
+    have hc : c ≠ '<' := fun e => h (e ▸ List.mem_cons_self)
+    rw [List.cons_append, textSafe_cons_ne' hc]
+    exact ih (fun hm => h (List.mem_cons_of_mem _ hm)) (fun _ => trivial)
+
+theorem contain_tail (p : List Char) (c : Char) (r : List Char) (h : bytesContain p (c :: r) = false) :
+    bytesContain p r = false := by
+  simp only [bytesContain, Bool.or_eq_false_iff] at h; exact h.2
+
+theorem sp_ok (b : Bool) : opensMarkup (if b then '\n' else ' ') = false := by cases b <;> decide
+
+theorem replWsEnt_textSafe (em : EntMap) (rev : RevMap) (ht : Tables em rev) :
+    ∀ (b : List Char) (k : Nat) (inWs : Bool), textSafe b = true → bytesContain ['<', '&'] b = false →
+      textSafe (replWsEnt em rev k inWs b) = true := by
+  intro b
+  induction b with
+  | nil => intro k inWs _ _; cases k <;> rfl
+  | cons c b ih =>
+    intro k inWs hb hn
+    have hb' := textSafe_tail c b hb
+    have hn' := contain_tail _ c b hn
+    cases k with
+    | succ k => simp only [replWsEnt]; exact ih k false hb' hn'
+    | zero =>
+      simp only [replWsEnt]
+      split
+      · next hws =>
+        split
+        · exact ih 0 true hb' hn'
+        · rw [textSafe_cons_ne' (by split <;> decide)]; exact ih 0 true hb' hn'
+      · next hws =>
+        split
+        · split
+          · next r k' hr =>
+            rw [textSafe_append_noLt r _ (replAt_no_lt em rev ht _ _ _ hr) (fun _ => trivial)]
+            exact ih k' false hb' hn'
+          · rw [textSafe_cons_ne' (by decide)]; exact ih 0 false hb' hn'
+        · next hamp =>
+          by_cases hc : c = '<'
+          · subst hc
+            rw [textSafe_lt, Bool.and_eq_true]
+            refine ⟨?_, ih 0 false hb' hn'⟩
+            rw [textSafe_lt, Bool.and_eq_true] at hb
+            cases b with
+            | nil => simp [headOK] at hb
+            | cons d b'' =>
+              have hd : opensMarkup d = false := by simpa [headOK] using hb.1
+              have hda : d ≠ '&' := by
+                intro e; subst e
+                simp [bytesContain, List.isPrefixOf] at hn
+              simp only [replWsEnt]
+              split
+              · simp only [Bool.false_eq_true, if_false, headOK, sp_ok, Bool.not_false]
+              · simp only [hda, decide_false, Bool.false_and, Bool.false_eq_true, if_false, headOK, hd, Bool.not_false]
+          · rw [textSafe_cons_ne' hc]; exact ih 0 false hb' hn'
+
+theorem collapseWs_textSafe : ∀ (b : List Char) (inWs : Bool), textSafe b = true → textSafe (collapseWs inWs b) = true := by
+  intro b
+  induction b with
+  | nil => intro _ _; rfl
+  | cons c b ih =>
+    intro inWs hb
+    have hb' := textSafe_tail c b hb
+    simp only [collapseWs]
+    split
+    · split
+      · exact ih true hb'
+      · rw [textSafe_cons_ne' (by split <;> decide)]; exact ih true hb'
+    · next hws =>
+      by_cases hc : c = '<'
+      · subst hc
+        rw [textSafe_lt, Bool.and_eq_true]
+        refine ⟨?_, ih false hb'⟩
+        rw [textSafe_lt, Bool.and_eq_true] at hb
+        cases b with
+        | nil => simp [headOK] at hb
+        | cons d b'' =>
+          have hd : opensMarkup d = false := by simpa [headOK] using hb.1
+          simp only [collapseWs]
+          split
+          · simp only [Bool.false_eq_true, if_false, headOK, sp_ok, Bool.not_false]
+          · simp only [headOK, hd, Bool.not_false]
+      · rw [textSafe_cons_ne' hc]; exact ih false hb'
+
+/-- **the reference / white-space stage never creates markup**: `textSafe` data stays `textSafe` — a text with `<&` keeps
+    its references (6635adc), elsewhere a decoded reference never lands directly behind a `<` and never is a `<` -/
+theorem textCollapsed_textSafe (data : List Char) (h : textSafe data = true) : textSafe (textCollapsed data) = true := by
+  unfold textCollapsed
+  split
+  · exact collapseWs_textSafe data false h
+  · next hc =>
+    simp only [Bool.or_eq_true, not_or, Bool.not_eq_true] at hc
+    exact replWsEnt_textSafe _ _ text_tables data 0 false h hc.2
+
+theorem textSafe_snoc (l : List Char) (y : Char) (hy : opensMarkup y = false) (hy2 : y ≠ '<') :
+    ∀ x, textSafe (l ++ [x]) = true → textSafe (l ++ [y]) = true := by
+  induction l with
+  | nil => intro x _; simp [textSafe, hy2]
+  | cons c l ih =>
+    intro x h
+    by_cases hc : c = '<'
+    · subst hc
+      rw [List.cons_append, textSafe_lt, Bool.and_eq_true] at h ⊢
+      refine ⟨?_, ih x h.2⟩
+      cases l with
+      | nil => simp [headOK, hy]
+      | cons d l' => simpa [headOK] using h.1
+    · rw [List.cons_append, textSafe_cons_ne' hc] at h ⊢; exact ih x h
+
+theorem textSafe_snoc_space (l : List Char) (h : textSafe l = true) : textSafe (l ++ [' ']) = true := by
+  induction l with
+  | nil => rfl
+  | cons c l ih =>
+    by_cases hc : c = '<'
+    · subst hc
+      rw [textSafe_lt, Bool.and_eq_true] at h
+      rw [List.cons_append, textSafe_lt, Bool.and_eq_true]
+      refine ⟨?_, ih h.2⟩
+      cases l with
+      | nil => simp [headOK] at h
+      | cons d l' => simpa [headOK] using h.1
+    · rw [textSafe_cons_ne' hc] at h; rw [List.cons_append, textSafe_cons_ne' hc]; exact ih h
+
+theorem ws_not_opener (x : Char) (h : isWhitespace x = true) : opensMarkup x = false ∧ x ≠ '<' := by
+  simp only [isWhitespace, Bool.or_eq_true, decide_eq_true_eq] at h
+  rcases h with (((h | h) | h) | h) | h <;> subst h <;> exact ⟨by decide, by decide⟩
+
+theorem textNormal_textSafe (keepWs omitSpace : Bool) (data : List Char) (rest : List HTok) (h : textSafe data = true) :
+    textSafe ((textNormal keepWs omitSpace data rest).2 ++ [' ']) = true := by
+  have h0 := textCollapsed_textSafe data h
+  unfold textNormal
+  simp only
+  have h1 : textSafe (if omitSpace && headIs isWhitespace (textCollapsed data) then (textCollapsed data).drop 1 else textCollapsed data) = true := by
+    split
+    · cases hd : textCollapsed data with
+      | nil => rfl
+      | cons c r => rw [hd] at h0; exact textSafe_tail c r h0
+    · exact h0
+  generalize (if omitSpace && headIs isWhitespace (textCollapsed data) then (textCollapsed data).drop 1 else textCollapsed data) = d1 at h1
+  split
+  · rfl
+  · next l hl =>
+    split
+    · next hws =>
+      split
+      · -- the trailing white space is removed: `d1 = dropLast ++ [l]`
+        have hd : d1 = d1.dropLast ++ [l] := by
+          have hne : d1 ≠ [] := by intro e; rw [e] at hl; cases hl
+          have h5 := List.dropLast_concat_getLast hne
+          have h6 : d1.getLast hne = l := by
+            have := List.getLast?_eq_some_getLast hne
+            rw [hl] at this; exact (Option.some.inj this).symm
+          rw [h6] at h5; exact h5.symm
+        have hx := ws_not_opener l hws
+        have : textSafe (d1.dropLast ++ [l]) = true := by rw [← hd]; exact h1
+        exact textSafe_snoc d1.dropLast ' ' (by decide) (by decide) l this
+      · exact textSafe_snoc_space d1 h1
+    · exact textSafe_snoc_space d1 h1
+
+/-- **html_text_safe_preserved** (replaces the K-C09-HTML-10 counterexample; html.go 6635adc).  For every option set, model
+    state in which an ordinary text token is processed (`textMode = 3`) and text token all of whose `<` are followed by a
+    byte that opens no markup (lexer contract: `textSafe`; the `&` of `<&#98;>` is such a byte): the bytes written, followed
+    by any byte that opens no markup, are `textSafe` again — no tag, end tag, comment or processing instruction is created
+    inside the piece: a text with `<&` keeps its references, elsewhere no decoded reference is or follows a `<`.  (Only the
+    LAST byte can be a bare `<` — when the white space behind it was trimmed; what follows the piece then decides:
+    K-C09-HTML-4.) -/
+theorem html_text_safe_preserved (o : Opts) (ext : Ext) (sub : Sub) (st : St) (data : List Char) (tmpl : Bool)
+    (rest : List HTok) (h1 : st.dropEnd = false) (h2 : Verif.Proofs.HtmlWs.textMode st tmpl = 3)
+    (hd : textSafe data = true) :
+    ∃ st' out, step o ext sub st (.text data tmpl) rest = .ok (st', out) ∧ textSafe (out ++ [' ']) = true := by
+  obtain ⟨st', out, hs, _, _, _, _, _, h3⟩ := Verif.Proofs.HtmlWs.step_text_mode o ext sub st data tmpl rest h1
+  have := (h3 h2).2
+  exact ⟨st', out, hs, by rw [this]; exact textNormal_textSafe _ _ data rest hd⟩
+
+/-- the former counterexample: `<&#98;>x` stays as it is -/
+example : textSafe "<&#98;>x".toList = true ∧ textCollapsed "<&#98;>x".toList = "<&#98;>x".toList ∧
+    textCollapsed "a  <&#47;b>  &amp; c".toList = "a <&#47;b> &amp; c".toList := by
+  decide +kernel
+
 /-- non-vacuity: references to `<` in three spellings are all written as `&lt;`, `&amp;` is decoded, white space collapsed -/
 example : NoLt "x &#60;b  y &amp; z &#x3C;/p &LT;!".toList ∧
     textCollapsed "x &#60;b  y &amp; z &#x3C;/p &LT;!".toList = "x &lt;b y & z &lt;/p &lt;!".toList := by
